@@ -19,6 +19,9 @@ QUERIES = [
   Q('deferred_roundtrip', 'C04_deferred.cpp', 'h_deferred', hooks=[r'13align_pointerEPvm=vh_align'], models=['m_throw.c'], libmodels=['m_string.c', 'm_env.c'], unwind=66,
     bounds='a 16-byte, 8-aligned, not trivially copyable type whose last byte is significant, all bytes symbolic; record start at any offset 0..15 of a 64-byte aligned buffer; align_pointer = the contract decided by deferred_align',
     what='real DeferredFormatCodec encode/decode_arg (placement-new path): written == consumed == reserved, no byte outside the reservation is touched, the decoded object equals the original even after the bytes behind the reservation were overwritten'),
+  Q('deferred_roundtrip_a16', 'C04_deferred.cpp', 'h_deferred', defines=['ALIGN=16'], hooks=[r'13align_pointerEPvm=vh_align'], models=['m_throw.c'], libmodels=['m_string.c', 'm_env.c'], unwind=66,
+    bounds='a 16-byte, 16-aligned, not trivially copyable type whose last byte is significant, all bytes symbolic; record start at any offset 0..31 of a 64-byte aligned buffer; align_pointer = the contract decided by deferred_align',
+    what='real DeferredFormatCodec encode/decode_arg (placement-new path): written == consumed == reserved, no byte outside the reservation is touched, the decoded object equals the original even after the bytes behind the reservation were overwritten'),
 ]
 BOUNDS = 'listed instantiations, strings <= 5 bytes; sanitiser strings of 3 bytes; one 16-byte not trivially copyable deferred-format type at every start offset; argument-store flag for the 4 character-carrying argument kinds'
 OUTSIDE = 'that libfmt renders equal values to equal text (trusted: deterministic function of template, types and values); std container / optional / pair / tuple / chrono / path codecs, DeferredFormatCodec for other types than the bounded one, DirectFormatCodec, nested containers, wchar_t'
